@@ -14,6 +14,7 @@ REQUIRED_THEOREMS = [
     "TapkeeVerif.C05.mdsPre_eq_gram",
     "TapkeeVerif.C05.mds_gram",
     "TapkeeVerif.C05.mds_exact_recovery",
+    "TapkeeVerif.C05.mds_exact_recovery_of_hrank",
     "TapkeeVerif.C05.isomap_full_k_eq_mds_partial",
     "TapkeeVerif.C05.isomap_full_k_eq_mds",
     "TapkeeVerif.C05.randomized_exact_on_low_rank",
@@ -67,6 +68,7 @@ def judge(ctx, binary, cases):
     lines = [case_line(c) for c in cases]
     impl = ctx.run_impl_cases(binary, lines)
     jl, where = [], []
+    ncalls = {}
     verdicts = [None] * len(cases)
     for n, (c, line, io) in enumerate(zip(cases, lines, impl)):
         if io == "throw:eigendecomposition_error" and c["solver"] == "rand" and zero_pre(c):
@@ -79,9 +81,11 @@ def judge(ctx, binary, cases):
             continue
         f = sp.fields(io)
         nan_y, ytxt = sp.nan_columns(f["Y"])
+        calls = f.get("calls", "?")
         if sp.has_nonfinite(f["pre"]) or sp.has_nonfinite(f["V"]) or sp.has_nonfinite(f["lam"]):
             verdicts[n] = {"impl": io[:300], "model": "", "bad": [("eig", "nonfinite-solver-output")], "soft": []}
             continue
+        ncalls[n] = calls
         jl.append("%s robustmax=%d pre=%s V=%s lam=%s Y=%s nancols=%s" % (
             line, 16 if ctx.tier == "quick" else 32, f["pre"], f["V"], f["lam"], ytxt,
             ",".join(map(str, sorted(nan_y))) or "-"))
@@ -104,6 +108,9 @@ def judge(ctx, binary, cases):
                 val = t.get(key, "missing")
                 if not (val.startswith("exact") or val.startswith("approx") or val.startswith("nan-columns")):
                     v["soft"].append((key, val.split(":")[0].split("@")[0]))
+            if ncalls.get(n) != "1":
+                # exactly one eigendecomposition per embed() call reaches the hook
+                v["soft"].append(("calls", "eigendecompositions-seen=%s" % ncalls.get(n)))
             if t.get("robust", "skipped") not in ("ok", "ok2", "skipped"):
                 # the manifest claims extremality is certified soundly as run (N <= 16 / 32): an inconclusive certificate
                 # is a broken obligation of the check (not a failing input)
